@@ -6,7 +6,7 @@ from oracle_util import *  # noqa
 from protocol import from_real, pm
 
 ID = "C12"
-LEAN_MODULE = ["SCoda.Props.C13", "SCoda.Props.C12", "SCoda.Props.C12b", "SCoda.Props.C13b", "SCoda.Props.ViewTie", "SCoda.Props.StaticTie", "SCoda.Props.C12n"]
+LEAN_MODULE = ["SCoda.Props.C13", "SCoda.Props.C12", "SCoda.Props.C12b", "SCoda.Props.C13b", "SCoda.Props.ViewTie", "SCoda.Props.StaticTie", "SCoda.Props.C12n", "SCoda.Props.C12c"]
 CLAUSES = [
     ("one sequence per saved sequence, in the same order", ["SCoda.C13.one_per_group"]),
     ("save: summing the delta times of the written track puts every emitted event back on its original tick, in order, with pitch and velocity kept "
@@ -35,6 +35,8 @@ CLAUSES = [
       "SCoda.C13b.save_load_time_signature_in_force", "SCoda.C13b.save_load_key_signature_in_force", "SCoda.C13b.key_table_round_trip", "SCoda.C13b.saved_key_parses"]),
     ("NOTES and sounding set for MULTI-CHANNEL sequences (audit round 2 F5/A8): for sequences in which no two notes of equal pitch on different channels overlap or touch (the complement of D21's recorded class), and more generally for every sequence that stays well-formed with positive-length notes once the channels are forgotten (experimentally the exact class: touching is fine when the note-off is listed first), loaded sequence i holds exactly the notes of saved sequence i relabelled to channel 0, sounds pitch p at t iff saved sequence i did on some channel, has the same note-ons (pitch, tick, velocity), and the signatures in force are those saved",
      ["SCoda.C12n.save_load_notes'", "SCoda.C12n.save_load_sounding'", "SCoda.C12n.save_load_notesX", "SCoda.C12n.save_load_soundingX", "SCoda.C12n.save_load_note_onsX", "SCoda.C12n.save_load_time_signature_in_forceX", "SCoda.C12n.save_load_key_signature_in_forceX", "SCoda.C12n.saved_saved'", "SCoda.C12n.saved'_savedX", "SCoda.C12n.touch_on_first_fuses"]),
+    ('SAVE SIDE COMPOSED WITH LOAD SIDE (audit round 3 M5): the translated sequences_save, then MidiFile.save up to the write (translated to_mido_track, its literals read as mido objects: Model/MidoCodec.lean), then ASSUMED about mido only that a written file is read back with the same ticks_per_beat and, per track, the same messages as far as parse_mido_message reads them followed by one end_of_track (ReadBack; replayed on 300 random in-domain files), then the translated sequences_load (open, parse_mido, parse_mido_track, parse_mido_message, convert) equals C13.saveLoad — for relative views whose key signatures carry one of the 15 keys and that hold no note-on of velocity 0; the sounding and notes theorems are restated about that pipeline. Both conditions are needed and replayed through real files: a KEY_SIGNATURE message whose key is None makes sequences_save raise AttributeError; a note-on of velocity 0 is written as note_on velocity=0 and loaded as a note-off, so the note is lost (the property says velocities 1..127)',
+     ["SCoda.C12c.parse_encode_saved", "SCoda.C12c.save_then_load", "SCoda.C12c.save_load_sounding_gen", "SCoda.C12c.save_load_notes_gen", "SCoda.C12c.save_raises_on_key_None", "SCoda.C12c.save_succeeds_statement_false", "SCoda.C12c.save_load_vel0_statement_false"]),
 ]
 RULE = ("lists of 1-3 integer-tick well-formed single-channel sequences (<=6 notes, velocities 1..127, all 15 keys, "
         "signatures at arbitrary ticks on distinct ticks, leading rests); real file round trip through mido in a temp dir; "
